@@ -197,7 +197,13 @@ Definition defs_ok (defs : list def) : bool :=
 
 Definition pretasks (defs : list def) : list nat := dedup [] (flat_map d_pre defs).
 
-Definition from_params (defs : list def) : option result :=
+(* the init tasks that are executed: every entry of "init-tasks" of the last definition (the code
+   before fixes/C13-1.diff), or - once = true - each lightweight task once: an init task listed twice,
+   or already executed as a pre-task, is not executed again                                     *)
+Definition inits (once : bool) (defs : list def) (last : def) : list nat :=
+  if once then dedup (pretasks defs) (d_init last) else d_init last.
+
+Definition from_params_gen (once : bool) (defs : list def) : option result :=
   match rev defs with
   | [] => None                                     (* definitions[-1]: IndexError *)
   | last :: _ =>
@@ -205,18 +211,22 @@ Definition from_params (defs : list def) : option result :=
         Some {| r_objects := map def_object defs;
                 r_log := map (fun d => PostInit (d_id d) (map fst (d_fields d))) defs
                          ++ map Execute (pretasks defs)
-                         ++ map Execute (d_init last)
+                         ++ map Execute (inits once defs last)
                          ++ [Body (d_id last)];
                 r_root := d_id last |}
       else None
   end.
+Definition from_params : list def -> option result := from_params_gen true.
+Definition from_params_listed : list def -> option result := from_params_gen false.
 
 (* writing the parameter file of task `root` and running it *)
-Definition load (h : heap) (root : nat) : option result :=
+Definition load_gen (once : bool) (h : heap) (root : nat) : option result :=
   match ser_order h root with
   | None => None
-  | Some order => from_params (map (def_of h) order)
+  | Some order => from_params_gen once (map (def_of h) order)
   end.
+Definition load : heap -> nat -> option result := load_gen true.
+Definition load_listed : heap -> nat -> option result := load_gen false.
 
 (* ---- ObjectStore (l.569-585) and FromPython.stub (l.1634-1644) ---------------------------- *)
 (* `instantiate` names the object of configuration n by n.  That abstraction rests on the store
